@@ -755,6 +755,7 @@ func c07(args []string) int {
 				ss[j] = "s"
 				ds[j] = time.Duration(j) * time.Millisecond
 			}
+			str400 := strings.Repeat("x", 400)
 			kinds := []struct {
 				name string
 				fn   func(e *zerolog.Event) *zerolog.Event
@@ -774,6 +775,36 @@ func c07(args []string) int {
 				{"Bools", func(e *zerolog.Event) *zerolog.Event { return e.Bools("k", bs) }},
 				{"Strs", func(e *zerolog.Event) *zerolog.Event { return e.Strs("k", ss) }},
 				{"Durs", func(e *zerolog.Event) *zerolog.Event { return e.Durs("k", ds) }},
+				// containers whose own scratch buffer grows far beyond its initial size while the event stays below the
+				// limit: the Array / Dict scratch buffers are pooled under the same 64 KiB rule as the event's (round 15)
+				{"Array(Arr() of n Int)", func(e *zerolog.Event) *zerolog.Event {
+					a := zerolog.Arr()
+					for j := 0; j < n; j++ {
+						a.Int(ints[j])
+					}
+					return e.Array("k", a)
+				}},
+				{"Array(Arr() of n Str)", func(e *zerolog.Event) *zerolog.Event {
+					a := zerolog.Arr()
+					for j := 0; j < n; j++ {
+						a.Str("abcdef")
+					}
+					return e.Array("k", a)
+				}},
+				{"Array(Arr() of n/50 Str of 400 bytes)", func(e *zerolog.Event) *zerolog.Event {
+					a := zerolog.Arr()
+					for j := 0; j < n/50; j++ {
+						a.Str(str400)
+					}
+					return e.Array("k", a)
+				}},
+				{"Dict(n Int members)", func(e *zerolog.Event) *zerolog.Event {
+					d := zerolog.Dict()
+					for j := 0; j < n; j++ {
+						d.Int("k", ints[j])
+					}
+					return e.Dict("k", d)
+				}},
 			}
 			for ki, kd := range kinds {
 				lg := &loggers[(ki+n)%len(loggers)]
